@@ -627,15 +627,9 @@ impl MutableArchive {
                 continue;
             }
 
-            // Read the file data
-            let file_data = match self.read_file(filename) {
-                Ok(data) => data,
-                Err(_) => {
-                    // Skip files we can't read
-                    log::warn!("Skipping file {filename} during compaction (read error)");
-                    continue;
-                }
-            };
+            // Read the file data. A file that cannot be read must fail the compaction:
+            // skipping it would silently drop it from the rewritten archive.
+            let file_data = self.read_file(filename)?;
 
             // Determine compression and encryption from block flags
             let compression = if block_entry.is_compressed() {
